@@ -554,12 +554,19 @@ class DefaultHostMatches(Matcher):
         return None
 
 
+def _ends_with_escaped_char(pattern: str) -> bool:
+    """True if the last character of ``pattern`` is escaped by a backslash
+    (i.e. preceded by an odd number of backslashes), as in ``re.escape("/a$")``."""
+    body = pattern[:-1]
+    return (len(body) - len(body.rstrip("\\"))) % 2 == 1
+
+
 class PathMatches(Matcher):
     """Matches requests with paths specified by ``path_pattern`` regex."""
 
     def __init__(self, path_pattern: str | Pattern) -> None:
         if isinstance(path_pattern, basestring_type):
-            if not path_pattern.endswith("$"):
+            if not path_pattern.endswith("$") or _ends_with_escaped_char(path_pattern):
                 path_pattern += "$"
             self.regex = re.compile(path_pattern)
         else:
@@ -617,7 +624,7 @@ class PathMatches(Matcher):
         pattern = self.regex.pattern
         if pattern.startswith("^"):
             pattern = pattern[1:]
-        if pattern.endswith("$"):
+        if pattern.endswith("$") and not _ends_with_escaped_char(pattern):
             pattern = pattern[:-1]
 
         if self.regex.groups != pattern.count("("):
